@@ -278,7 +278,13 @@ def build_disc(c):
         z = lsl.param(int(c["z0"]), prior, name="z")
     items = [z]
     c0, c1, s, d0, d1 = c["c0"], c["c1"], c["s"], c["d0"], c["d1"]
-    if c["ys"]:
+    if c["ys"] and c.get("resid"):
+        # the same likelihood written on residuals: z reaches the distribution through its evaluation point
+        sig = lsl.Var(float(s) * 2.0, name="sig")     # run_disc hands a state with sig = s
+        ydat = lsl.Var(np.asarray(c["ys"], dtype=np.float64), name="ydat")
+        items.append(lsl.Var(lsl.Calc(lambda y, z: y - (c0 + c1 * z), ydat, z),
+                             lsl.Dist(tfd.Normal, loc=0.0, scale=sig), name="y"))
+    elif c["ys"]:
         mu = lsl.Var(lsl.Calc(lambda z: c0 + c1 * z, z), name="mu")
         sig = lsl.Var(float(s) * 2.0, name="sig")     # run_disc hands a state with sig = s
         items.append(lsl.obs(np.asarray(c["ys"], dtype=np.float64), lsl.Dist(tfd.Normal, loc=mu, scale=sig), name="y"))
@@ -447,7 +453,7 @@ def dy(rnd, lo, hi, den):
     return rnd.randint(int(lo * den), int(hi * den)) / den
 
 
-K_STRATA = ["full", "rw1", "rw2", "zero", "scaled", "block", "p1", "gram"]
+K_STRATA = ["full", "rw1", "rw2", "zero", "scaled", "block", "p1", "gram", "tiny", "tinydiag"]
 BETA_STRATA = ["random", "zero", "null", "random", "large"]
 
 
@@ -476,6 +482,16 @@ def gen_K(rnd, kt):
             for j, x in enumerate(row):
                 K[i][j] = x
         return K            # rank p - 2
+    if kt == "tiny":
+        # a legal penalty whose non-zero eigenvalues all lie below 1e-6 (uniformly down-scaled difference penalty)
+        f = 2.0 ** -rnd.choice([22, 24, 26])
+        return [[f * x for x in row] for row in diff_pen(p, rnd.choice([1, 1, 2]) if p > 2 else 1)]
+    if kt == "tinydiag":
+        # weakly penalised directions: eigenvalues 2^-22 next to eigenvalues of order one (x64 builds only, see gen_tau2)
+        d = [rnd.choice([1.0, 0.5, 2.0, 1.5]) for _ in range(p)]
+        for i in rnd.sample(range(p), rnd.randint(1, p - 1)):
+            d[i] = 2.0 ** -22
+        return [[d[i] if i == j else 0.0 for j in range(p)] for i in range(p)]
     # gram: B'B with a random small integer B of r rows (rank <= r)
     r = rnd.randint(1, p)
     B = [[float(rnd.randint(-2, 2)) for _ in range(p)] for _ in range(r)]
@@ -504,13 +520,14 @@ def gen_tau2(rnd, idx, kt=None, bt=None, f32=None):
          "seed": rnd.randint(0, 2 ** 31 - 1), "family": fam,
          "X": [[dy(rnd, -1, 1, 4) for _ in range(p)] for _ in range(n)],
          "y": [float(rnd.randint(0, 4)) if fam == "poisson" else dy(rnd, -2, 2, 4) for _ in range(n)],
-         "f32": bool(idx % 5 == 4) if f32 is None else f32, "extra": idx % 3 == 1,
+         # (numpy's matrix_rank tolerance is relative to the dtype: mixed-scale penalties only in x64 builds)
+         "f32": (bool(idx % 5 == 4) if f32 is None else f32) and kt != "tinydiag", "extra": idx % 3 == 1,
          "ts": list(PROFILE_TS)}
     return c
 
 
 DISC_STRATA = ["finite_both", "bern_normal", "finite_prior_only", "bern_out_rev", "finite_poisson", "finite_sub",
-               "bern_both", "finite_single", "finite_zero_prob"]
+               "bern_both", "finite_single", "finite_zero_prob", "finite_resid", "bern_resid"]
 
 
 def gen_probs(rnd, k):
@@ -547,9 +564,11 @@ def gen_disc(rnd, idx, st=None):
         c["z0"] = rnd.choice([0, 1])
         if st == "bern_out_rev":
             c["outcomes_arg"] = [1, 0]
-    if st in ("finite_both", "bern_normal", "finite_sub", "bern_both", "bern_out_rev", "finite_single", "finite_zero_prob"):
+    if st in ("finite_both", "bern_normal", "finite_sub", "bern_both", "bern_out_rev", "finite_single", "finite_zero_prob",
+              "finite_resid", "bern_resid"):
         c["ys"] = [dy(rnd, -2, 2, 4) for _ in range(rnd.randint(1, 3))]
-    if st in ("finite_both", "finite_poisson", "bern_both", "finite_sub"):
+    c["resid"] = st.endswith("_resid") or (st in ("finite_both", "bern_both") and idx % 4 == 2)
+    if st in ("finite_both", "finite_poisson", "bern_both", "finite_sub", "finite_resid"):
         c["ns"] = [float(rnd.randint(0, 5)) for _ in range(rnd.randint(1, 3))]
     return c
 
